@@ -232,7 +232,6 @@ func checkAdvertisedBorders(p *Prog, r *Roles, res *Result, rule string) {
 	}
 }
 
-
 type rawBorder struct {
 	isEnd bool
 	index ssa.Value // index of the partition in its slice, when visible
